@@ -329,9 +329,12 @@ class FakeSnowflakeCursor:
                 if cmd == "DROP DATABASE" and ident == self._conn.database:
                     self._conn.database = None
                     self._conn.schema = None
+                    self._conn.database_set = False
+                    self._conn.schema_set = False
 
                 elif cmd == "DROP SCHEMA" and ident == self._conn.schema:
                     self._conn.schema = None
+                    self._conn.schema_set = False
 
         if table_comment := cast(tuple[exp.Table, str], transformed.args.get("table_comment")):
             # record table comment
